@@ -146,8 +146,29 @@ pub fn run(ctx: &mut Ctx) -> Report {
 			}
 		}
 		for doc in crate::props::c11::make_docs(&s.ctx.rsa_fixture.clone(), false) {
-			if let Ok(k) = KeyPair::try_from(doc.der.as_slice()) {
-				keys_to_write.push((format!("loaded:{}:{}:{}", doc.origin, doc.fmt, doc.kty), k));
+			// every way a document gets in: the four auto-detecting conversions, and the entry points
+			// that are told the algorithm (the one auto-detection reports)
+			let mut ways: Vec<(&str, Result<KeyPair, Error>)> = vec![
+				("try_from(&[u8])", KeyPair::try_from(doc.der.as_slice())),
+				("try_from(Vec<u8>)", KeyPair::try_from(doc.der.clone())),
+			];
+			if let Ok(pk) = rustls_pki_types::PrivateKeyDer::try_from(doc.der.clone()) {
+				ways.push(("try_from(&PrivateKeyDer)", KeyPair::try_from(&pk)));
+				if let Ok(k0) = KeyPair::try_from(doc.der.as_slice()) {
+					ways.push(("from_der_and_sign_algo", KeyPair::from_der_and_sign_algo(&pk, k0.algorithm())));
+					let label = match doc.fmt { "sec1" => "EC PRIVATE KEY", "pkcs1" => "RSA PRIVATE KEY", _ => "PRIVATE KEY" };
+					let text = pem::encode_config(&pem::Pem::new(label, doc.der.clone()), pem::EncodeConfig::new().set_line_ending(pem::LineEnding::LF));
+					ways.push(("from_pem", KeyPair::from_pem(&text)));
+					ways.push(("from_pem_and_sign_algo", KeyPair::from_pem_and_sign_algo(&text, k0.algorithm())));
+				}
+			}
+			if doc.fmt.starts_with("pkcs8") {
+				ways.push(("try_from(&PrivatePkcs8KeyDer)", KeyPair::try_from(&rustls_pki_types::PrivatePkcs8KeyDer::from(doc.der.clone()))));
+			}
+			for (way, r) in ways {
+				if let Ok(k) = r {
+					keys_to_write.push((format!("loaded:{}:{}:{}:{}", doc.origin, doc.fmt, doc.kty, way), k));
+				}
 			}
 		}
 		for (origin, k) in &keys_to_write {
@@ -172,7 +193,53 @@ pub fn run(ctx: &mut Ctx) -> Report {
 				}
 			}
 		}
-		s.rep.exhaustive.push("private-key texts of generated keys (every algorithm) and of keys loaded from OpenSSL / ring documents (PKCS#8 v1, v2, SEC1, PKCS#1 as the build loads them) x the three PEM loaders".into());
+		s.rep.exhaustive.push("private-key texts of generated keys (every algorithm) and of keys loaded from OpenSSL / ring documents (PKCS#8 v1, v2, SEC1, PKCS#1 as the build loads them, through each of the seven loading entry points) x the three PEM loaders".into());
+	}
+	// --- the PEM files the command-line tool writes: each is one PEM text of its kind and nothing
+	// else, also when the directory already holds the files of an earlier run with longer keys
+	#[cfg(not(feature = "nocrypto"))]
+	{
+		let aws = cfg!(feature = "aws");
+		let cli = std::env::var("VERIF_CLI").unwrap_or_else(|_| format!("/verif/.cache/target-cli-{}/debug/rustls-cert-gen", if aws { "aws" } else { "ring" }));
+		if std::path::Path::new(&cli).exists() {
+			let runs: Vec<Vec<&str>> = vec![vec!["--ecdsa-p384", "--ed25519"], vec!["--ecdsa-p256"], vec!["--ed25519", "--ecdsa-p384", "--ecdsa-p256"], if aws { vec!["--rsa", "--ecdsa-p256"] } else { vec!["--ecdsa-p384", "--ecdsa-p256"] }];
+			for (ri, seq) in runs.iter().enumerate() {
+				let dir = format!("/verif/.cache/c14_cli_{}_{}", std::process::id(), ri);
+				let _ = std::fs::remove_dir_all(&dir);
+				let _ = std::fs::create_dir_all(&dir);
+				for (step, flag) in seq.iter().enumerate() {
+					let out = std::process::Command::new(&cli).args(["-o", &dir, flag, "--san", "a-name-for-this-run.example.com"]).env("RUST_BACKTRACE", "0").output();
+					let ok = out.as_ref().map(|o| o.status.success()).unwrap_or(false);
+					s.rep.case(&format!("cli files run {} step {} {}", ri, step, flag), true);
+					if !ok {
+						s.rep.count("cli_run_failed");
+						continue;
+					}
+					for (file, kind, label) in [("cert.pem", "certificate", "CERTIFICATE"), ("cert.key.pem", "privateKey", "PRIVATE KEY"), ("root-ca.pem", "certificate", "CERTIFICATE"), ("root-ca.key.pem", "privateKey", "PRIVATE KEY")] {
+						let Ok(text) = std::fs::read_to_string(format!("{}/{}", dir, file)) else {
+							s.rep.violate("C14:cli-file-missing", "a PEM file of the tool is missing or not text", format!("{} after {:?}", file, &seq[..=step]));
+							continue;
+						};
+						s.rep.count("cli_files_checked");
+						let resp = s.drv.ask(&format!("spec-pem {}", hex(text.as_bytes())));
+						let okk = resp.starts_with(&format!("(ok {} ", hex(label.as_bytes())));
+						if !okk {
+							s.rep.violate(&format!("C14:strict-decode:cli-file:{}", kind), "a file written by the tool is not exactly one PEM text of its kind under the strict RFC 7468 decoder", format!("file {} after the runs {:?} into one directory\nspec answer: {}\nfile length {} bytes{}", file, &seq[..=step], resp, text.len(), if kind == "certificate" { format!("\ntext:\n{}", text) } else { " (private key text withheld)".to_string() }));
+						} else if let Ok(p) = pem::parse(&text) {
+							// and the text is the model's envelope of the bytes it decodes to
+							let m = s.drv.ask(&format!("pem {} {}", kind, hex(p.contents())));
+							if m != hex(text.as_bytes()) {
+								s.rep.disagree("C14:pem:cli-file", "a file written by the tool differs from the model's PEM text of its content", format!("file {} after {:?}", file, &seq[..=step]));
+							}
+						}
+					}
+				}
+				let _ = std::fs::remove_dir_all(&dir);
+			}
+			s.rep.exhaustive.push("the four PEM files of the command-line tool after first runs and after reruns into a used directory (longer key first), each required to be exactly one PEM text".into());
+		} else {
+			s.rep.notes.push("the command-line tool was not built: its files were not examined".into());
+		}
 	}
 	s.rep.exhaustive.push(format!("certificate common-name padding 0..{} (DER lengths through all residues mod 3 and mod 48) x all five kinds", pad_max));
 	let req = s.drv.requests;
